@@ -251,6 +251,7 @@ class FnSpec:
         self._comp = h.get('comp')
         self.field_write = h.get('field_write')
         self.closure_vals = {}
+        self.opaque_fstrings = h.get('opaque_fstrings', False)
         self.assumptions = set()
         self.written_fields = set()
 
